@@ -776,6 +776,34 @@ func runCase(cs poolsim.Case) (coqOut string, failOut *failure, stOut stats, rOu
 				want1 = append(append([]types.TransactionID(nil), before1...), news...)
 			}
 		}
+		// a refused set discards the pool's validation cache, and every revalidation offers the fee-paying
+		// transactions of the last reverted block again: one of those that is neither a member of the set nor
+		// was pooled before may enter now (e.g. a child whose parent was resubmitted in the meantime); that is
+		// the re-offer, not the submission, and is set aside before the all-or-none comparison
+		if lr := r.LastReverted(); lr != nil {
+			reoffered := map[types.TransactionID]bool{}
+			for _, x := range lr.Block.Transactions {
+				reoffered[x.ID()] = true
+			}
+			for _, x := range lr.Block.V2Transactions() {
+				reoffered[x.ID()] = true
+			}
+			isSet := map[types.TransactionID]bool{}
+			for _, id := range setIDs {
+				isSet[id] = true
+			}
+			strip := func(l []types.TransactionID) (out []types.TransactionID) {
+				for _, id := range l {
+					if reoffered[id] && !inPool[id] && !isSet[id] {
+						st["re-offered-transactions-entering-at-a-submission"]++
+						continue
+					}
+					out = append(out, id)
+				}
+				return
+			}
+			after1, after2 = strip(after1), strip(after2)
+		}
 		// (a full pool may evict at the next query; the generated pools of this check stay far below the limit)
 		if fmt.Sprint(after1) != fmt.Sprint(want1) || fmt.Sprint(after2) != fmt.Sprint(want2) {
 			if verdict != 0 {
